@@ -349,6 +349,23 @@ func main() {
 						fields = append(fields, sf)
 					}
 				}
+				// encoding/json drops BOTH of two fields with the same JSON name: outside the subset
+				seenJSON := map[string]bool{}
+				for _, f := range fields {
+					n := f.goName
+					if f.hasTag {
+						if f.tag == "-" {
+							continue
+						}
+						if t := strings.Split(f.tag, ",")[0]; t != "" {
+							n = t
+						}
+					}
+					if seenJSON[strings.ToUpper(n)] {
+						die("struct %s: two fields share the JSON name %q (case-insensitively): outside the subset", ts.Name.Name, n)
+					}
+					seenJSON[strings.ToUpper(n)] = true
+				}
 				structs[ts.Name.Name] = fields
 			}
 		}
